@@ -1,6 +1,9 @@
 """C10 – ray / plane / triangle intersection.  Correspondence of get_triangle_normal, intersect_w_surface,
 intersect_w_triangle(_batch) (torch) and the NumPy twins with the Lean model; monitors evaluate the geometric
-conclusions on the implementation's own outputs."""
+conclusions on the implementation's own outputs.
+Also: intersect_w_circle of both APIs on tilted circles built by define_circle (and on exactly axis-aligned hand-built
+ones), planar_mesh.mirror (hit points on the mesh triangles, law of reflection, misses not returned), and
+intersect_w_triangle_batch with several triangles against the single ray-triangle pairs."""
 import logging
 import math
 import warnings
@@ -88,6 +91,10 @@ def run(ctx):
                 'scale) x rays (inside, outside, behind the origin, parallel, grazing), batch sizes 1-5, both APIs; non-trivial = '
                 'non-parallel ray; distinct by (class, ray kind, coordinates)')
     exact_parallel_cases(ctx)
+    ctx.rule += ('; circles: tilt classes (none, one/two/three axes, multiples of 90 deg, exactly axis-aligned) x radii x rays aimed at '
+                 'rho = 0, inside, rim +-2 %, outside, far, behind the origin, exactly parallel, ray shapes [2x3], [1x2x3], [mx2x3], '
+                 'float32/float64; planar_mesh.mirror: 2..4 nodes per side, flat / offset / rough heights, tilts, rays that hit, miss '
+                 'the rectangle, run parallel, point away; batch: 1-3 triangles x 1-3 rays')
     __import__('harness.props.gengeom', fromlist=['x']).check_generated_geometry(ctx, 'C10')   # regenerated definitions vs /repo
     NT = ctx.n(60, 600)
     lines, cases = [], []
@@ -224,6 +231,512 @@ def run(ctx):
                     if flag != (inside_margin > 0):
                         ctx.violation('numpy intersect_w_triangle flag %s but point is %s' % (flag, 'inside' if inside_margin > 0 else 'outside'),
                                       rec, {'api': 'numpy', 'fn': 'intersect_w_triangle', 'what': 'flag'})
+    circle_cases(ctx)
+    mirror_cases(ctx)
+    batch_cases(ctx)
+
+
+# ======================================================================================================================
+#  intersect_w_circle (both APIs), define_circle
+# ======================================================================================================================
+
+BASE_PLANE = np.array([[10., 10., 0.], [0., 10., 0.], [0., 0., 0.]])      # define_plane: three points of the un-tilted plane
+
+
+def rot_xyz(angles):
+    """documented convention of rotate_point(s), mode 'XYZ': rotate about x, then y, then z (degrees)"""
+    ax, ay, az = [math.radians(a) for a in angles]
+    rx = np.array([[1, 0, 0], [0, math.cos(ax), -math.sin(ax)], [0, math.sin(ax), math.cos(ax)]])
+    ry = np.array([[math.cos(ay), 0, math.sin(ay)], [0, 1, 0], [-math.sin(ay), 0, math.cos(ay)]])
+    rz = np.array([[math.cos(az), -math.sin(az), 0], [math.sin(az), math.cos(az), 0], [0, 0, 1]])
+    return rz @ ry @ rx
+
+
+TILT_CLASSES = ['zero', 'x', 'y', 'z', 'xy', 'yz', 'xyz', 'right', 'axis0', 'axis1', 'axis2']
+RAY_KINDS = ['centre', 'inside', 'inside', 'rim_in', 'rim_out', 'outside', 'far', 'behind', 'behind_outside', 'parallel']
+
+
+def circle_tilt(rng, cls):
+    a = lambda: rng.choice([-1, 1]) * rng.uniform(5, 80)
+    if cls == 'x':
+        return [a(), 0., 0.]
+    if cls == 'y':
+        return [0., a(), 0.]
+    if cls == 'z':
+        return [0., 0., a()]
+    if cls == 'xy':
+        return [a(), a(), 0.]
+    if cls == 'yz':
+        return [0., a(), a()]
+    if cls == 'xyz':
+        return [a(), a(), a()]
+    if cls == 'right':
+        return [rng.choice([0., 90., 180., -90., 270.]) for _ in range(3)]
+    return [0., 0., 0.]
+
+
+def circle_rays(rng, plane, centre, radius, kinds, exact_plane):
+    """rays aimed at the point of the circle's plane at rho * radius from the centre"""
+    n = np.cross(plane[0] - plane[1], plane[2] - plane[1])
+    n = n / np.linalg.norm(n)
+    u = (plane[1] - plane[2]) / np.linalg.norm(plane[1] - plane[2])
+    v = np.cross(n, u)
+    out = []
+    for kind in kinds:
+        rho = {'centre': 0.0, 'inside': rng.uniform(0.05, 0.9), 'rim_in': 0.98, 'rim_out': 1.02, 'outside': rng.uniform(1.2, 3.0),
+               'far': rng.uniform(5, 40), 'behind': rng.uniform(0.0, 0.9), 'behind_outside': rng.uniform(1.2, 3.0),
+               'parallel': 0.5}[kind]
+        phi = rng.uniform(0, 2 * math.pi)
+        target = centre + rho * radius * (math.cos(phi) * u + math.sin(phi) * v)
+        h = rng.uniform(0.5, 4) * max(1.0, radius)
+        o = target + rng.choice([-1, 1]) * h * n + (rng.uniform(-1, 1) * u + rng.uniform(-1, 1) * v) * h
+        d = (target - o) / np.linalg.norm(target - o)
+        if kind.startswith('behind'):
+            d = -d
+        if kind == 'parallel':
+            if exact_plane:       # n is a coordinate axis: in-plane directions are exactly perpendicular to it in floating point
+                d = rng.choice([u, v, 0.6 * u + 0.8 * v, -u])
+            else:
+                kind, rho = 'inside', 0.5
+        out.append((kind, o, d))
+    return out
+
+
+def circle_eval(api, plane, centre, radius, rays, kinds, batched):
+    """calls intersect_w_circle of `api` ('torch32', 'torch64', 'numpy') and evaluates the conclusions of C10 on what it returns.
+    returns (failures, hits[m,3], normals[m,3], distances[m]); failure = (what, text, ray index, extra class entries)"""
+    import odak.learn.raytracing as LR
+    import odak.raytracing as NR
+    rays = np.asarray(rays, dtype=np.float64).reshape(-1, 2, 3)
+    m = rays.shape[0]
+    arg = rays if batched else rays[0]
+    if api == 'numpy':
+        nrm, dist = NR.intersect_w_circle(arg.copy(), [plane.copy(), centre.copy(), float(radius)])
+        nrm, dist = np.asarray(nrm, dtype=np.float64), np.asarray(dist, dtype=np.float64)
+        tol0 = 1e-9
+    else:
+        dt = torch.float32 if api == 'torch32' else torch.float64
+        nrm, dist = LR.intersect_w_circle(torch.tensor(arg, dtype=dt), [torch.tensor(plane, dtype=dt), torch.tensor(centre, dtype=dt),
+                                                                         torch.tensor([radius], dtype=dt)])
+        nrm, dist = nrm.detach().numpy().astype(np.float64), dist.detach().numpy().astype(np.float64)
+        tol0 = 5e-4 if api == 'torch32' else 1e-9
+    fails = []
+    want_shape = (m, 2, 3) if batched else (2, 3)
+    if nrm.shape != want_shape or dist.size != m:
+        fails.append(('shape', 'returns shapes %s / %s for %s ray(s) of shape %s' % (nrm.shape, dist.shape, m, arg.shape), 0, {}))
+        return fails, None, None, None
+    nrm, dist = nrm.reshape(m, 2, 3), dist.reshape(m)
+    n = np.cross(plane[0] - plane[1], plane[2] - plane[1])
+    n = n / np.linalg.norm(n)
+    scale = max(1.0, float(np.max(np.abs(plane))), float(np.max(np.abs(centre))), radius)
+    for i in range(m):
+        o, d = rays[i]
+        kind = kinds[i]
+        hit, nv, dd = nrm[i, 0], nrm[i, 1], dist[i]
+        nd = float(np.dot(n, d))
+        if kind == 'parallel':
+            if np.all(np.isfinite(hit)) or (np.isfinite(dd) and dd != 0):
+                fails.append(('parallel', 'gives a ray parallel to the circle plane the point %s and distance %r instead of flagging it'
+                              % (hit.tolist(), dd), i, {}))
+            continue
+        t = float(np.dot(n, centre - o) / nd)
+        p = o + t * d
+        rho = float(np.linalg.norm(p - centre) / radius)
+        tol = tol0 * max(scale, abs(t), float(np.max(np.abs(o))))
+        if not (np.all(np.isfinite(hit)) and np.all(np.isfinite(nv)) and np.isfinite(dd)):
+            fails.append(('finite', 'non-finite result %s / %s / %r for a ray that crosses the plane' % (hit.tolist(), nv.tolist(), dd), i, {}))
+            continue
+        if np.linalg.norm(nv) < 1e-6 or np.linalg.norm(np.cross(nv, n)) > max(tol0 * 4, 1e-12) * np.linalg.norm(nv):
+            fails.append(('normal', 'normal %s is not a non-zero vector perpendicular to the circle plane (plane normal %s)'
+                          % (nv.tolist(), n.tolist()), i, {}))
+        if abs(np.dot(n, hit - centre)) > 4 * tol:
+            fails.append(('hit_on_plane', 'hit point %s is %.3g off the circle plane' % (hit.tolist(), abs(np.dot(n, hit - centre))), i, {}))
+        if np.linalg.norm(np.cross(hit - o, d)) > 4 * tol:
+            fails.append(('hit_on_line', 'hit point %s is not on the line of the ray' % hit.tolist(), i, {}))
+        if abs(rho - 1) < 5e-3:
+            continue
+        if rho > 1:
+            if dd != 0:
+                fails.append(('flag', 'point at %.3f radii from the centre (outside) but distance %r is not zero' % (rho, dd), i, {'side': 'outside'}))
+        else:
+            if dd == 0:
+                fails.append(('flag', 'point at %.3f radii from the centre (inside) but distance is zero' % rho, i, {'side': 'inside'}))
+            elif np.linalg.norm(hit - (o + dd * d)) > 4 * tol:
+                fails.append(('hit_on_ray', 'hit point %s is not origin + distance * direction for the reported distance %r (ray parameter %r)'
+                              % (hit.tolist(), dd, t), i, {'negative_parameter': t < 0}))
+    return fails, nrm[:, 0], nrm[:, 1], dist
+
+
+def circle_cases(ctx):
+    import odak.learn.raytracing as LR
+    import odak.raytracing as NR
+    rng = ctx.rng
+    todo = []        # (tag, model line, implementation values, tol, rec)
+    N = ctx.n(44, 400)
+    for k in range(N):
+        tcls = TILT_CLASSES[k % len(TILT_CLASSES)]
+        centre = np.array([rng.uniform(-3, 3), rng.uniform(3.5, 6), rng.uniform(-9, -6.5)]) if k % 5 else np.zeros(3)
+        radius = [0.05, 0.7, 2.5, 9.0, 25.0][(k // len(TILT_CLASSES) + k) % 5]
+        angles = circle_tilt(rng, tcls)
+        exact = tcls in ('zero', 'axis0', 'axis1', 'axis2')
+        rec0 = {'tilt_class': tcls, 'angles': angles, 'centre': centre.tolist(), 'radius': radius}
+        planes = {}
+        if tcls.startswith('axis'):
+            # hand-built packed form [points, centre, radius] whose plane is a coordinate plane through the centre
+            sh = int(tcls[-1])
+            pl = np.roll(BASE_PLANE, sh, axis=1) + centre
+            c32 = centre.astype(np.float32).astype(np.float64)
+            planes = {'torch32': (np.roll(BASE_PLANE, sh, axis=1) + c32, c32), 'torch64': (pl, centre), 'numpy': (pl, centre)}
+        else:
+            want = BASE_PLANE @ rot_xyz(angles).T + centre
+            ct = LR.define_circle(torch.tensor(centre, dtype=torch.float32), radius, torch.tensor(angles, dtype=torch.float32))
+            cn = NR.define_circle(centre.copy(), radius, list(angles))
+            for api, c, tol in (('torch', ct, 5e-4), ('numpy', cn, 1e-9)):
+                pts = np.asarray(c[0].numpy() if api == 'torch' else c[0], dtype=np.float64)
+                cc = np.asarray(c[1].numpy() if api == 'torch' else c[1], dtype=np.float64).reshape(-1)
+                rr = float(np.asarray(c[2].numpy() if api == 'torch' else c[2]).reshape(-1)[0])
+                ctx.count('define_circle/%s/%s' % (api, tcls))
+                if pts.shape != (3, 3) or not np.all(np.abs(pts - want) <= tol * 30) or not np.allclose(cc, centre, atol=tol * 10) \
+                        or abs(rr - radius) > tol * max(1, radius):
+                    ctx.violation('%s define_circle(centre, radius, angles): plane points %s / centre %s / radius %r are not the plane '
+                                  'through the centre tilted by the angles (expected points %s)' % (api, pts.tolist(), cc.tolist(), rr, want.tolist()),
+                                  dict(rec0, api=api), {'api': api, 'fn': 'define_circle', 'what': 'plane', 'tilt': tcls})
+                planes['torch32' if api == 'torch' else 'numpy'] = (pts, cc)
+            planes['torch64'] = (want, centre)
+        m = 1 + k % 3
+        batched = not (m == 1 and k % 2 == 0)
+        kinds = [RAY_KINDS[(k + 3 * j) % len(RAY_KINDS)] for j in range(m)]
+        if exact and (k // len(TILT_CLASSES)) % 2 == 0:
+            kinds[-1] = 'parallel'
+        base = circle_rays(rng, planes['numpy'][0], planes['numpy'][1], radius, kinds, exact)
+        kinds = [b[0] for b in base]
+        for api in ('torch32', 'torch64', 'numpy'):
+            plane, cc = planes[api]
+            rays = np.array([[o, d] for (_, o, d) in base])
+            if api == 'torch32':
+                rays = rays.astype(np.float32).astype(np.float64)
+            rec = dict(rec0, circle={'api': api, 'plane': plane.tolist(), 'centre': cc.tolist(), 'radius': radius},
+                       rays=rays.tolist(), kinds=kinds, batched=batched)
+            try:
+                fails, hits, nvs, dists = circle_eval(api, plane, cc, radius, rays, kinds, batched)
+            except Exception as e:
+                if api == 'torch64' and 'dtype' in str(e):
+                    # get_triangle_normal builds its result in float32 whatever the input is: float64 rays are a rejected input class
+                    ctx.count('circle/torch64 rejected (dtype error)')
+                    continue
+                ctx.violation('%s intersect_w_circle raised %r' % (api, e), rec, {'api': api, 'fn': 'intersect_w_circle', 'what': 'raises'})
+                continue
+            for j, kd in enumerate(kinds):
+                ctx.case(('circle', api, tcls, kd, radius, tuple(np.round(rays[j, 0], 6))), kd != 'parallel', rec if j == 0 else None)
+                ctx.count('circle/%s/%s' % (api, kd))
+            ctx.count('circle/shape/' + ('[%dx2x3]' % m if batched else '[2x3]'))
+            tapi = 'numpy' if api == 'numpy' else 'torch'
+            for what, text, i, extra in fails:
+                cls = dict({'api': tapi, 'fn': 'intersect_w_circle', 'what': what, 'kind': kinds[i], 'dtype': api}, **extra)
+                if tapi == 'numpy' and what == 'hit_on_ray' and extra.get('negative_parameter'):
+                    # intersect_w_circle passes on the distance of NumPy intersect_w_surface, which is |t| (listed finding F06)
+                    cls = {'api': 'numpy', 'fn': 'intersect_w_surface', 'what': 'hit_on_ray', 'negative_parameter': True, 'via': 'intersect_w_circle'}
+                ctx.violation('%s intersect_w_circle: %s' % (api, text), dict(rec, ray_index=i), cls)
+            if hits is None:
+                continue
+            # batched call == one ray at a time
+            if m > 1:
+                for j in range(m):
+                    f1, h1, n1, d1 = circle_eval(api, plane, cc, radius, rays[j:j + 1], kinds[j:j + 1], False)
+                    if h1 is None or not (np.allclose(h1[0], hits[j], atol=1e-6, equal_nan=True) and np.allclose(n1[0], nvs[j], atol=1e-6, equal_nan=True)
+                                          and np.allclose(d1[0], dists[j], atol=1e-6 * max(1, abs(dists[j]) if np.isfinite(dists[j]) else 1), equal_nan=True)):
+                        ctx.violation('%s intersect_w_circle: ray %d of a batch gives %s / %r, alone it gives %s / %r'
+                                      % (api, j, hits[j].tolist(), dists[j], None if h1 is None else h1[0].tolist(), None if d1 is None else d1[0]),
+                                      dict(rec, ray_index=j), {'api': tapi, 'fn': 'intersect_w_circle', 'what': 'batch_vs_single', 'dtype': api})
+            # model: regenerated intersectCircleT (torch); regenerated NumPy intersectSurfaceN + the documented distance rule
+            for j, kd in enumerate(kinds):
+                if kd == 'parallel':
+                    continue
+                got = np.concatenate([hits[j], nvs[j], [dists[j]]])
+                t = abs(dists[j]) if np.isfinite(dists[j]) else 1.0
+                sc = max(1.0, float(np.max(np.abs(plane))), t, float(np.max(np.abs(rays[j, 0]))))
+                if tapi == 'torch':
+                    todo.append(('%s intersect_w_circle' % api, 'gg_circle %s %s %s %d' % (fl(rays[j].reshape(-1)), fl(plane.reshape(-1)), fl(cc), f2b(radius)),
+                                 got, (5e-4 if api == 'torch32' else 1e-9) * sc, dict(rec, ray_index=j), None))
+                else:
+                    todo.append(('numpy intersect_w_circle', 'gg_surface 0 %s %s' % (fl(rays[j].reshape(-1)), fl(plane.reshape(-1))),
+                                 got, 1e-9 * sc, dict(rec, ray_index=j), (cc, radius)))
+    if ctx.drv_ok and todo:
+        outs = ctx.model.ask([t[1] for t in todo])
+        bad = 0
+        for (tag, line, got, tol, rec, circ), out in zip(todo, outs):
+            want = np.array([b2f(x) for x in out.split()], dtype=np.float64)
+            if circ is not None and want.shape == (7,):
+                rho = np.linalg.norm(want[:3] - circ[0]) / circ[1]
+                if abs(rho - 1) < 5e-3:
+                    continue
+                if rho > 1:
+                    want[6] = 0.0
+            ok = want.shape == got.shape and np.array_equal(np.isfinite(want), np.isfinite(got)) and \
+                bool(np.all(np.abs(want - got)[np.isfinite(want)] <= tol))
+            if not ok:
+                bad += 1
+                if bad <= 5:
+                    ctx.alarm('correspondence', '%s: implementation %s vs regenerated definition %s (%s)' % (tag, got.tolist(), want.tolist(), rec))
+
+
+# ======================================================================================================================
+#  planar_mesh.mirror
+# ======================================================================================================================
+
+def line_triangle(o, d, tri):
+    """float64 reference: parameter t of the line o + t d in the triangle's plane and barycentric coordinates of that point"""
+    e1, e2 = tri[1] - tri[0], tri[2] - tri[0]
+    n = np.cross(e1, e2)
+    nn = np.linalg.norm(n)
+    if nn < 1e-12:
+        return None
+    n = n / nn
+    nd = float(np.dot(n, d))
+    if abs(nd) < 1e-12:
+        return None
+    t = float(np.dot(n, tri[0] - o) / nd)
+    p = o + t * d
+    w = p - tri[0]
+    d11, d12, d22 = np.dot(e1, e1), np.dot(e1, e2), np.dot(e2, e2)
+    den = d11 * d22 - d12 * d12
+    a = (d22 * np.dot(w, e1) - d12 * np.dot(w, e2)) / den
+    b = (d11 * np.dot(w, e2) - d12 * np.dot(w, e1)) / den
+    return t, p, n, min(a, b, 1 - a - b)
+
+
+def mirror_eval(size, nodes, angles, offset, heights, rays, kinds, single):
+    """builds the mesh, bounces the rays and evaluates the conclusions; returns (failures, info)"""
+    from odak.learn.raytracing.mesh import planar_mesh
+    n0, n1 = nodes
+    hs = None if heights is None else torch.tensor(np.asarray(heights, dtype=np.float64).reshape(n0, n1, 1), dtype=torch.float32)
+    mesh = planar_mesh(size=torch.tensor(size, dtype=torch.float32), number_of_meshes=torch.tensor([n0, n1]),
+                       angles=torch.tensor(angles, dtype=torch.float32), offset=torch.tensor(offset, dtype=torch.float32), heights=hs)
+    rays = np.asarray(rays, dtype=np.float64).reshape(-1, 2, 3)
+    arg = torch.tensor(rays[0] if single else rays, dtype=torch.float32)
+    out_rays, out_normals = mesh.mirror(arg)
+    tris = mesh.get_triangles().detach().numpy().astype(np.float64)
+    out_rays, out_normals = out_rays.detach().numpy().astype(np.float64), out_normals.detach().numpy().astype(np.float64)
+    fails = []
+    R = rot_xyz(angles)
+    H = np.zeros((n0, n1)) if heights is None else np.asarray(heights, dtype=np.float64).reshape(n0, n1)
+    X, Y = np.linspace(-size[0] / 2, size[0] / 2, n0), np.linspace(-size[1] / 2, size[1] / 2, n1)
+    node = np.array([[R @ np.array([X[i], Y[j], H[i, j]]) + np.asarray(offset) for j in range(n1)] for i in range(n0)]).reshape(-1, 3)
+    scale = max(1.0, float(np.max(np.abs(node))), float(np.max(np.abs(rays[:, 0]))))
+    tol = 5e-4 * scale
+    # the triangles of the mesh: vertices are mesh nodes (position, height, tilt, offset), together they cover the rectangle once
+    real = [tr for tr in tris if np.linalg.norm(np.cross(tr[1] - tr[0], tr[2] - tr[0])) > 1e-9]
+    area = 0.0
+    for tr in real:
+        for vtx in tr:
+            if np.min(np.linalg.norm(node - vtx, axis=1)) > tol:
+                fails.append(('mesh_nodes', 'triangle vertex %s is not a node of the mesh (sizes, heights, tilt, offset)' % vtx.tolist(), None))
+                break
+        loc = (tr - np.asarray(offset)) @ R            # back to the un-tilted frame: x, y, height
+        ea, eb = loc[1, :2] - loc[0, :2], loc[2, :2] - loc[0, :2]
+        area += 0.5 * abs(ea[0] * eb[1] - ea[1] * eb[0])
+    if abs(area - size[0] * size[1]) > 1e-3 * size[0] * size[1] or len(real) != 2 * (n0 - 1) * (n1 - 1):
+        fails.append(('mesh_cover', '%d triangles of total footprint %.6g for a %gx%g mesh with %dx%d nodes' % (len(real), area, size[0], size[1], n0, n1), None))
+    else:
+        # every point of the rectangle lies under exactly one triangle (four probe points per square, off both diagonals)
+        foot = [((tr - np.asarray(offset)) @ R)[:, :2] for tr in real]
+        for i in range(n0 - 1):
+            for j in range(n1 - 1):
+                for fa, fb in ((0.3, 0.2), (0.8, 0.7), (0.2, 0.7), (0.7, 0.2)):
+                    q = np.array([X[i] + fa * (X[i + 1] - X[i]), Y[j] + fb * (Y[j + 1] - Y[j])])
+                    cover = 0
+                    for f in foot:
+                        e1, e2, w = f[1] - f[0], f[2] - f[0], q - f[0]
+                        den = e1[0] * e2[1] - e1[1] * e2[0]
+                        a, b = (w[0] * e2[1] - w[1] * e2[0]) / den, (e1[0] * w[1] - e1[1] * w[0]) / den
+                        cover += a > 0 and b > 0 and a + b < 1
+                    if cover != 1 and not any(x[0] == 'mesh_cover' for x in fails):
+                        fails.append(('mesh_cover', 'the point (%.4g, %.4g) of the mesh rectangle lies under %d triangles' % (q[0], q[1], cover), None))
+    # expected bounces (float64), ray by ray
+    expected, ambiguous = [], False
+    for i, (o, d) in enumerate(rays):
+        for tr in real:
+            r = line_triangle(o, d, tr)
+            if r is None:
+                continue
+            t, p, n, margin = r
+            if abs(margin) < 2e-3:
+                ambiguous = True
+            if margin > 0:
+                expected.append({'ray': i, 'hit': p, 'n': n, 'dir': d - 2 * np.dot(d, n) * n, 't': t, 'used': False})
+    if out_rays.shape[1:] != (2, 3) or out_normals.shape != out_rays.shape:
+        fails.append(('shape', 'mirror returns shapes %s / %s' % (out_rays.shape, out_normals.shape), None))
+        return fails, {'returned': 0, 'expected': len(expected)}
+    for k in range(out_rays.shape[0]):
+        start, rdir, npos, ndir = out_rays[k, 0], out_rays[k, 1], out_normals[k, 0], out_normals[k, 1]
+        if not np.all(np.isfinite(out_rays[k])) or not np.all(np.isfinite(out_normals[k])):
+            fails.append(('finite', 'returned ray %d is not finite: %s' % (k, out_rays[k].tolist()), None))
+            continue
+        best = None
+        for e in expected:
+            dist = np.linalg.norm(e['hit'] - start)
+            if not e['used'] and dist <= tol * max(1, abs(e['t']) / scale) * 4 and (best is None or dist < best[0]) and \
+                    np.linalg.norm(np.cross(e['n'], ndir)) < 2e-3:
+                best = (dist, e)
+        if best is None:
+            fails.append(('not_a_hit', 'returned ray %d starts at %s, which is not where any given ray meets a triangle of the mesh' % (k, start.tolist()), None))
+            continue
+        e = best[1]
+        e['used'] = True
+        d = rays[e['ray'], 1]
+        if abs(np.linalg.norm(ndir) - 1) > 2e-3 or np.linalg.norm(npos - start) > tol:
+            fails.append(('normal', 'returned normal %s / %s is not the unit normal at the hit point %s' % (npos.tolist(), ndir.tolist(), start.tolist()), e['ray']))
+        if np.linalg.norm(rdir - e['dir']) > 2e-3 or abs(np.linalg.norm(rdir) - 1) > 2e-3 or abs(np.dot(rdir, e['n']) + np.dot(d, e['n'])) > 2e-3:
+            fails.append(('reflection_law', 'ray %d with direction %s meets a triangle with normal %s and leaves with %s (mirror image %s)'
+                          % (e['ray'], d.tolist(), e['n'].tolist(), rdir.tolist(), e['dir'].tolist()), e['ray']))
+    if not ambiguous:
+        for e in expected:
+            if not e['used'] and not kinds[e['ray']].startswith('behind'):
+                fails.append(('hit_not_returned', 'ray %d meets a triangle at %s (inside it) but no reflected ray is returned for it' % (e['ray'], e['hit'].tolist()), e['ray']))
+    return fails, {'returned': int(out_rays.shape[0]), 'expected': len(expected), 'ambiguous': ambiguous,
+                   'behind_returned': sum(1 for e in expected if e['used'] and e['t'] < 0)}
+
+
+def mirror_cases(ctx):
+    rng = ctx.rng
+    HEIGHTS = ['flat', 'flat', 'offset', 'rough', 'rough', 'one_node']
+    TILTS = ['zero', 'x', 'y', 'xyz', 'z']
+    for k in range(ctx.n(20, 120)):
+        n0, n1 = 2 + k % 3, 2 + (k // 3) % 3
+        size = [rng.uniform(1, 4), rng.uniform(1, 4)]
+        tcls, hcls = TILTS[k % len(TILTS)], HEIGHTS[k % len(HEIGHTS)]
+        angles = [a * 0.5 for a in circle_tilt(rng, tcls)]
+        offset = [rng.uniform(-2, 2), rng.uniform(3, 5), rng.uniform(6, 9)]
+        s = min(size)
+        if hcls == 'flat':
+            heights = None if k % 2 else np.zeros((n0, n1))
+        elif hcls == 'offset':
+            heights = np.full((n0, n1), rng.uniform(-0.5, 0.5) * s)
+        elif hcls == 'rough':
+            heights = np.array([[rng.uniform(-0.12, 0.12) * s for _ in range(n1)] for _ in range(n0)])
+        else:
+            heights = np.zeros((n0, n1)); heights[rng.randrange(n0), rng.randrange(n1)] = 0.2 * s
+        R = rot_xyz(angles)
+        H = np.zeros((n0, n1)) if heights is None else heights
+        X, Y = np.linspace(-size[0] / 2, size[0] / 2, n0), np.linspace(-size[1] / 2, size[1] / 2, n1)
+        m = 1 + k % 3 if k % 4 else 5
+        single = m == 1 and k % 2 == 0
+        rays, kinds = [], []
+        for j in range(m):
+            kind = ['hit', 'hit', 'miss_outside', 'hit', 'parallel', 'behind', 'hit_steep'][(k + j) % 7]
+            if j == 1 and tcls == 'zero' and hcls in ('flat', 'offset'):
+                kind = 'parallel'
+            if kind == 'miss_outside':
+                lx, ly = rng.choice([-1, 1]) * rng.uniform(0.65, 1.5) * size[0], rng.uniform(-0.4, 0.4) * size[1]
+                if rng.random() < 0.5:
+                    lx, ly = rng.uniform(-0.4, 0.4) * size[0], rng.choice([-1, 1]) * rng.uniform(0.65, 1.5) * size[1]
+                lz = 0.0
+            else:
+                i0, j0 = rng.randrange(n0 - 1), rng.randrange(n1 - 1)
+                a, b = rng.uniform(0.1, 0.8), rng.uniform(0.1, 0.8)
+                if a + b > 0.9:
+                    a, b = 0.45 * a, 0.45 * b
+                A = np.array([X[i0 + 1], Y[j0], H[i0 + 1, j0]]); C = np.array([X[i0], Y[j0 + 1], H[i0, j0 + 1]])
+                B = np.array([X[i0 + 1], Y[j0 + 1], H[i0 + 1, j0 + 1]]) if rng.random() < 0.5 else np.array([X[i0], Y[j0], H[i0, j0]])
+                lx, ly, lz = A + a * (B - A) + b * (C - A)
+            spread = 1.2 if kind == 'hit_steep' else 0.45
+            lo = np.array([lx + rng.uniform(-1, 1) * spread * s, ly + rng.uniform(-1, 1) * spread * s, lz + rng.choice([-1, 1]) * rng.uniform(1.0, 3.0) * s])
+            ld = np.array([lx, ly, lz]) - lo
+            if kind == 'parallel':
+                ld = np.array([rng.uniform(-1, 1), rng.uniform(-1, 1), 0.0]) + 1e-9
+                if tcls != 'zero' or hcls not in ('flat', 'offset'):
+                    kind = 'miss_outside'
+                    lo = np.array([lx, ly, 3.0 * s]); ld = np.array([1.0, 0.3, 0.0])      # passes over the mesh
+                else:
+                    ld[2] = 0.0
+            ld = ld / np.linalg.norm(ld)
+            if kind == 'behind':
+                ld = -ld
+            rays.append([R @ lo + np.array(offset), R @ ld])
+            kinds.append(kind)
+        rays = np.array(rays).astype(np.float32).astype(np.float64)
+        rec = {'mesh': {'size': size, 'nodes': [n0, n1], 'angles': angles, 'offset': offset, 'heights': None if heights is None else heights.tolist()},
+               'rays': rays.tolist(), 'kinds': kinds, 'single': single, 'tilt_class': tcls, 'height_class': hcls}
+        for j, kd in enumerate(kinds):
+            ctx.case(('mirror', tcls, hcls, n0, n1, kd, tuple(np.round(rays[j, 0], 6))), kd != 'parallel', rec if j == 0 else None)
+            ctx.count('mirror/ray/' + kd)
+        ctx.count('mirror/heights/' + hcls)
+        ctx.count('mirror/shape/' + ('[2x3]' if single else '[%dx2x3]' % m))
+        try:
+            fails, info = mirror_eval(size, [n0, n1], angles, offset, heights, rays, kinds, single)
+        except Exception as e:
+            ctx.violation('planar_mesh.mirror raised %r' % e, rec, {'api': 'torch', 'fn': 'planar_mesh.mirror', 'what': 'raises'})
+            continue
+        ctx.count('mirror/returned_rays', info['returned'])
+        ctx.count('mirror/behind_the_origin_returned_as_hits', info.get('behind_returned', 0))
+        for what, text, i in fails:
+            ctx.violation('planar_mesh.mirror: ' + text, dict(rec, ray_index=i),
+                          {'api': 'torch', 'fn': 'planar_mesh.mirror', 'what': what, 'heights': hcls, 'tilt': tcls,
+                           'kind': None if i is None else kinds[i]})
+
+
+# ======================================================================================================================
+#  intersect_w_triangle_batch with several triangles  ==  every (ray, triangle) pair on its own
+# ======================================================================================================================
+
+def batch_cases(ctx):
+    import odak.learn.raytracing as LR
+    rng = ctx.rng
+    for k in range(ctx.n(18, 150)):
+        m, n = 1 + k % 3, 1 + (k // 3) % 3
+        tl = [triangles(rng) for _ in range(m)]
+        rl = []
+        for j in range(n):
+            rl += rays_for(rng, tl[j % m][1], 1)
+        tris = torch.tensor(np.array([t for _, t in tl]), dtype=torch.float32)
+        rays = torch.tensor(np.array([[o, d] for (_, o, d, _, _) in rl]), dtype=torch.float32)
+        rec = {'triangles': tris.tolist(), 'rays': rays.tolist(), 'kinds': [r[0] for r in rl]}
+        ctx.case(('batch', m, n, tuple(np.round(rl[0][1], 6))), True, rec)
+        ctx.count('batch/%d triangles x %d rays' % (m, n))
+        try:
+            nb, db, rb, nrb, cb = LR.intersect_w_triangle_batch(rays, tris)
+            sb, sd = LR.intersect_w_surface_batch(rays, tris)
+        except Exception as e:
+            ctx.violation('torch intersect_w_triangle_batch raised %r' % e, rec, {'api': 'torch', 'fn': 'intersect_w_triangle_batch', 'what': 'raises'})
+            continue
+        ok = tuple(nb.shape) == (m, n, 2, 3) and tuple(cb.shape) == (m, n) and tuple(sb.shape) == (m, n, 2, 3) and tuple(sd.shape) == (m, n)
+        exp_r, exp_n, exp_d = [], [], []
+        if ok:
+            for a in range(m):
+                for b in range(n):
+                    n1, d1, _, _, c1 = LR.intersect_w_triangle(rays[b], tris[a])
+                    scale = max(1.0, float(tris[a].abs().max()), float(rays[b, 0].abs().max()),
+                                abs(float(d1.reshape(-1)[0])) if bool(torch.isfinite(d1).all()) else 1.0)
+                    grazing = 100 if rl[b][0] == 'grazing' else 1
+                    # a ray built parallel to a generic triangle is parallel only up to rounding: its far-away point is noise
+                    same = rl[b][0] == 'parallel' or torch.allclose(nb[a, b], n1.reshape(2, 3), atol=5e-4 * scale * grazing, equal_nan=True) and \
+                        torch.allclose(sb[a, b], n1.reshape(2, 3), atol=5e-4 * scale * grazing, equal_nan=True) and \
+                        torch.allclose(sd[a, b], d1.reshape(()), atol=5e-4 * scale * grazing, equal_nan=True)
+                    edge = rl[b][0] in ('grazing', 'parallel')
+                    if not edge:
+                        r = line_triangle(rays[b, 0].numpy().astype(np.float64), rays[b, 1].numpy().astype(np.float64), tris[a].numpy().astype(np.float64))
+                        edge = r is None or abs(r[3]) < 2e-3
+                    if not same or (not edge and bool(cb[a, b]) != bool(c1.reshape(-1)[0])):
+                        ok = False
+                        ctx.violation('triangle %d, ray %d of a %dx%d batch: %s / flag %s, as a single pair %s / flag %s'
+                                      % (a, b, m, n, nb[a, b].tolist(), bool(cb[a, b]), n1.tolist(), bool(c1.reshape(-1)[0])), dict(rec, pair=[a, b]),
+                                      {'api': 'torch', 'fn': 'intersect_w_triangle_batch', 'what': 'batch_vs_pair', 'multi': True})
+                    if bool(cb[a, b]):
+                        exp_r.append(rays[b]); exp_n.append(nb[a, b]); exp_d.append(sd[a, b])
+            # the grouped lists hold exactly the flagged pairs, triangle by triangle, ray order kept
+            got_r = torch.cat([g.reshape(-1, 2, 3) for g in rb]) if len(rb) else torch.zeros((0, 2, 3))
+            got_n = torch.cat([g.reshape(-1, 2, 3) for g in nrb]) if len(nrb) else torch.zeros((0, 2, 3))
+            got_d = torch.cat([g.reshape(-1) for g in db]) if len(db) else torch.zeros((0,))
+            if got_r.shape[0] != len(exp_r) or got_n.shape[0] != len(exp_r) or got_d.shape[0] != len(exp_r) or \
+                    (len(exp_r) and not (torch.equal(got_r, torch.stack(exp_r)) and torch.equal(got_n, torch.stack(exp_n))
+                                         and torch.equal(got_d, torch.stack(exp_d)))):
+                ctx.violation('intersect_w_triangle_batch: the lists of intersecting rays / normals / distances (%d / %d / %d entries) are not '
+                              'the %d flagged pairs in order' % (got_r.shape[0], got_n.shape[0], got_d.shape[0], len(exp_r)), rec,
+                              {'api': 'torch', 'fn': 'intersect_w_triangle_batch', 'what': 'grouped_lists', 'multi': True})
+        else:
+            ctx.violation('intersect_w_triangle_batch / intersect_w_surface_batch shapes %s %s %s %s for %d triangles x %d rays'
+                          % (tuple(nb.shape), tuple(cb.shape), tuple(sb.shape), tuple(sd.shape), m, n), rec,
+                          {'api': 'torch', 'fn': 'intersect_w_triangle_batch', 'what': 'shape', 'multi': True})
 
 
 def exact_parallel_cases(ctx):
@@ -266,6 +779,30 @@ def exact_parallel_cases(ctx):
 def replay(ctx, rep):
     import odak.learn.raytracing as LR
     r = rep['replay']
+    if 'circle' in r:
+        c = r['circle']
+        fails, hits, nvs, dists = circle_eval(c['api'], np.array(c['plane']), np.array(c['centre']), c['radius'], np.array(r['rays']),
+                                              r['kinds'], r.get('batched', True))
+        print('hit points', None if hits is None else hits.tolist(), 'distances', None if dists is None else dists.tolist())
+        for f in fails:
+            print('fails:', f[1])
+        return not fails
+    if 'mesh' in r:
+        m = r['mesh']
+        fails, info = mirror_eval(m['size'], m['nodes'], m['angles'], m['offset'], m['heights'], np.array(r['rays']), r['kinds'], r.get('single', False))
+        print(info)
+        for f in fails:
+            print('fails:', f[1])
+        return not fails
+    if 'triangles' in r:
+        nb, db, rb, nrb, cb = LR.intersect_w_triangle_batch(torch.tensor(r['rays'], dtype=torch.float32), torch.tensor(r['triangles'], dtype=torch.float32))
+        print('batch hit points', nb[:, :, 0].tolist(), 'flags', cb.tolist())
+        ok = True
+        for a in range(nb.shape[0]):
+            for b in range(nb.shape[1]):
+                n1, d1, _, _, c1 = LR.intersect_w_triangle(torch.tensor(r['rays'][b], dtype=torch.float32), torch.tensor(r['triangles'][a], dtype=torch.float32))
+                ok = ok and torch.allclose(nb[a, b], n1.reshape(2, 3), atol=1e-2, equal_nan=True)
+        return bool(ok)
     tri = torch.tensor(r['triangle'], dtype=torch.float32)
     n = LR.get_triangle_normal(tri)
     print('normal', n.tolist())
